@@ -280,6 +280,11 @@ func runC19(c *core.Ctx) {
 			why := strings.Join(an.Problems, "; ")
 			for _, p := range an.AllPaths() {
 				for _, st := range nonLocalStores(p) {
+					if freshSlotRegister(an, st.A[0]) {
+						// a store through a loop-carried slot that only ever points into memory this call allocated
+						// (the variable holding the result, the link field of the cell made last): nobody else's memory
+						continue
+					}
 					ok, why = false, "stores into "+short(st.A[0])+": the sequence given is modified"
 				}
 				if p.Exit == ir.ExitPanic {
@@ -532,6 +537,11 @@ func listNewOrder(c *core.Ctx) {
 	h := an.Headers[0]
 	xs := &ir.Term{Op: "param", Aux: fn.Params[1].Name()}
 	lenXs := &ir.Term{Op: "len", Args: []*ir.Term{xs}}
+	// the other way to build the same list: front to back through a slot (`*slot = cell; slot = &cell.tail`)
+	if okF, whyF, recognised := listNewForward(fn, an, h, xs, lenXs); recognised {
+		c.Check(okF, "list-new-order", name, fn.Pos(), "append xs[0] .. xs[len-1] through the link slot of the last cell", "%s", whyF)
+		return
+	}
 	// the descending index: an integer loop-carried register
 	var idx *ssa.Phi
 	for _, in := range h.Instrs {
@@ -941,4 +951,201 @@ func foldRule(c *core.Ctx) {
 		}
 	}
 	c.Check(ok, "fold", name, fn.Pos(), "x := Empty(); for !IsEmpty(s) { x = Combine(x, Head(s)); s = Tail(s) }", "%s", why)
+}
+
+// freshSlotRegister: addr is a loop-carried register every incoming value of which is a variable of this call or a
+// field of a cell this call allocated.
+func freshSlotRegister(an *ir.Analysis, addr *ir.Term) bool {
+	if addr == nil || addr.Op != "phi" {
+		return false
+	}
+	phi, isPhi := addr.Src.(*ssa.Phi)
+	if !isPhi {
+		return false
+	}
+	n := 0
+	for _, ps := range an.Segs {
+		for _, p := range ps {
+			v, has := p.PhiOut[phi]
+			if !has || p.To != phi.Block() {
+				continue
+			}
+			n++
+			base := v
+			if base != nil && base.Op == "faddr" && len(base.Args) == 1 {
+				base = base.Args[0]
+			}
+			if base == nil || base.Op != "alloc" {
+				return false
+			}
+		}
+	}
+	return n > 0
+}
+
+// listNewForward: list.New building its cells front to back.
+//
+//	var first *cell; slot := &first
+//	for i := 0; i < len(xs); i++ { c := &cell{head: xs[i]}; *slot = c; slot = &c.tail }
+//	return {len(xs), first}
+//
+// By induction over the iterations, `first` heads the cells of xs[0..i) in order and slot is the nil link that ends
+// them. recognised = the function has the slot register at all (otherwise the prepending form is tried).
+func listNewForward(fn *ssa.Function, an *ir.Analysis, h *ssa.BasicBlock, xs, lenXs *ir.Term) (ok bool, why string, recognised bool) {
+	var slot *ssa.Phi
+	for _, in := range h.Instrs {
+		phi, isPhi := in.(*ssa.Phi)
+		if !isPhi {
+			break
+		}
+		if pt, isP := phi.Type().Underlying().(*types.Pointer); isP {
+			if _, isPP := pt.Elem().Underlying().(*types.Pointer); isPP {
+				slot = phi
+			}
+		}
+	}
+	if slot == nil {
+		return false, "", false
+	}
+	recognised = true
+	l := countedLoop(an, h)
+	z, isZ := int64(-1), false
+	if l != nil && l.Start != nil {
+		z, isZ = l.Start.IntConst()
+	}
+	if l == nil || l.Step != 1 || l.Descending || !(l.RangeOver != nil && ir.Same(l.RangeOver, xs) || l.Bound != nil && ir.Same(l.Bound, lenXs) && isZ && (z == 0 || z == -1)) {
+		return false, "the loop is not an ascending walk over all arguments", true
+	}
+	if !l.Rotated() {
+		if q := earlyExit(an, h); q != nil {
+			return false, "the loop is left from inside its body: the remaining arguments never become cells", true
+		}
+	}
+	idx := l.Index(an)
+	slotSym := an.Start[h].Reg(slot)
+	var first *ir.Term
+	lb := ir.LoopBlocks(h)
+	for _, ps := range an.Segs {
+		for _, p := range ps {
+			if p.To != h || (p.From != nil && lb[p.From]) {
+				continue
+			}
+			v := p.PhiOut[slot]
+			if v == nil || v.Op != "alloc" || !p.End.MemAt(v).IsNil() {
+				return false, "the slot does not start at an empty list variable of the call: " + short(v), true
+			}
+			if first != nil && !ir.Same(first, v) {
+				return false, "the slot starts at different variables", true
+			}
+			first = v
+		}
+	}
+	if first == nil {
+		return false, "no way into the loop", true
+	}
+	nIter := 0
+	for _, p := range an.Segs[h] {
+		if p.To != h {
+			continue
+		}
+		nIter++
+		if len(calls(p)) != 0 {
+			return false, "an iteration calls out", true
+		}
+		var cell *ir.Term
+		linked := 0
+		for _, st := range p.Events(ir.KStore) {
+			a, v := st.A[0], st.A[1]
+			switch {
+			case ir.Same(a, slotSym):
+				linked++
+				if v.Op != "alloc" {
+					return false, "the slot receives " + short(v) + ", expected the cell just made", true
+				}
+				if cell != nil && !ir.Same(cell, v) {
+					return false, "two cells in one iteration", true
+				}
+				cell = v
+			case a.Op == "faddr" && len(a.Args) == 1 && a.Args[0].Op == "alloc" && st.LocalStore:
+				if cell != nil && !ir.Same(cell, a.Args[0]) {
+					return false, "two cells in one iteration", true
+				}
+				cell = a.Args[0]
+				isElem := v.Op == "load" && len(v.Args) == 1 && v.Args[0].Op == "iaddr" && ir.Same(v.Args[0].Args[0], xs) && ir.Same(v.Args[0].Args[1], idx)
+				if !isElem && !v.IsNil() {
+					return false, "the new cell is filled with " + short(v) + ", expected the argument at the loop's index (and no successor yet)", true
+				}
+			case a.Op == "alloc" && st.LocalStore:
+				// zero-initialisation of the fresh cell / of a local
+			default:
+				return false, "an iteration stores into " + short(a), true
+			}
+		}
+		if linked != 1 || cell == nil {
+			return false, fmt.Sprintf("an iteration must hang exactly one new cell into the slot (found %d)", linked), true
+		}
+		lit := p.End.MemAt(cell)
+		nHead, tailF := 0, ""
+		if pt, isP := cell.Typ.(*types.Pointer); isP {
+			if st, isS := pt.Elem().Underlying().(*types.Struct); isS {
+				for i := 0; i < st.NumFields(); i++ {
+					if types.Identical(st.Field(i).Type(), cell.Typ) {
+						tailF = st.Field(i).Name()
+					}
+				}
+			}
+		}
+		for _, kv := range ir.LitFields(lit) {
+			v := kv.Args[0]
+			if v.Op == "load" && len(v.Args) == 1 && v.Args[0].Op == "iaddr" && ir.Same(v.Args[0].Args[0], xs) && ir.Same(v.Args[0].Args[1], idx) {
+				nHead++
+			}
+		}
+		if nHead != 1 || tailF == "" {
+			return false, "the new cell does not hold the argument at the loop's index", true
+		}
+		if t := fieldOf2(lit, tailF); t != nil && !t.IsNil() && !(t.IsConst() && strings.HasPrefix(t.Aux, "zero")) {
+			return false, "the new cell already has a successor: " + short(t), true
+		}
+		next := p.PhiOut[slot]
+		if !(next != nil && next.Op == "faddr" && next.Aux == tailF && len(next.Args) == 1 && ir.Same(next.Args[0], cell)) {
+			return false, "the slot must move to the link field of the cell just made; found " + short(next), true
+		}
+	}
+	if nIter == 0 {
+		return false, "no iteration path", true
+	}
+	// results
+	nRet := 0
+	for _, p := range an.AllPaths() {
+		if p.Exit != ir.ExitReturn {
+			continue
+		}
+		nRet++
+		if p.From == nil {
+			if polarity(p, &ir.Term{Op: "bin", Aux: "==", Args: sorted2(ir.Const("0"), lenXs)}) <= 0 {
+				return false, "New returns before the loop for a non-empty argument list", true
+			}
+			continue
+		}
+		r := p.Results[0]
+		if r.Op == "alloc" {
+			r = p.End.MemAt(r)
+		}
+		hasLen, hasList := false, false
+		if r != nil && r.Op == "lit" {
+			for _, kv := range ir.LitFields(r) {
+				if linEqual(kv.Args[0], lenXs) {
+					hasLen = true
+				}
+				if ir.Same(kv.Args[0], an.Start[h].MemAt(first)) {
+					hasList = true
+				}
+			}
+		}
+		if !hasLen || !hasList || len(nonLocalStores(p)) != 0 {
+			return false, "the result is not {length: len(xs), list: the variable the slot started at}: " + short(r), true
+		}
+	}
+	return nRet > 0, "no returning path", true
 }
